@@ -18,6 +18,25 @@ def extra(res, facts, entries, protos):
     _proto.gate_rule(res, "C07.R1", g.header_gate_ok(0), "every accepted token passed the equal edge of a comparison of segment 0 with the expected version", g)
     _proto.gate_rule(res, "C07.R1", g.header_gate_ok(1), "every accepted token passed the equal edge of a comparison of segment 1 with the expected purpose", g)
     _proto.gate_rule(res, "C07.R1", g.payload_ok(), "the returned payload is the strict base64url decoding of segment 2", g)
+    # the gate is shared code: its configuration-dependent variants (`#[cfg]` / `cfg!` on the feature set - e.g. a build with one purpose
+    # only) are decided too, on the default and the eight single-protocol configurations
+    from .. import facts as F
+    for cfg in ["default"] + list(F.PROTOCOLS):
+        try:
+            f2 = F.load(cfg)
+        except F.ExtractError:
+            res.notes.append("configuration %s does not type-check: header gate not evaluated there (C20 reports it)" % cfg)
+            continue
+        g2 = G.gates(f2)
+        for i, what in ((0, "version"), (1, "purpose")):
+            ok, why = g2.header_gate_ok(i)
+            res.oblige(ok)
+            if ok:
+                res.inst("C07.R8", "[configuration %s] every accepted token passed the equal edge of a comparison of segment %d with the expected %s" % (cfg, i, what))
+            else:
+                res.violate("C07.R8", g2.body["id"] if g2.body else "Paseto::parse_raw_token", "[configuration %s] header gate (%s)" % (cfg, what), "in a build with features [%s]: %s" % (cfg, why or "gate not established"),
+                            file=g2.v.file() if g2.body else None, line=g2.body["line"] if g2.body else None)
+    res.floor("C07.R8", 18)
     # R2: each consumer calls parse_raw_token first, `?`-propagated, with its own version / purpose markers
     # (second opinion: only when the semantic rule C07.S6 - every accepting path of the consumer found the token's header equal to the
     # protocol's own - could not be decided)
